@@ -4314,6 +4314,16 @@ null_pc:
       frm.pop(__func__, __LINE__, pc);
    }
 
+   // The frame of indent_func_def_force_col1 is closed by the chunk that follows the closing
+   // brace of the function: a file that ends with that brace (no final newline) leaves it open
+   if (  in_func_def
+      && !frm.empty()
+      && Chunk::GetTail()->Is(CT_BRACE_CLOSE)
+      && Chunk::GetTail()->GetParentType() == CT_FUNC_DEF)
+   {
+      frm.pop(__func__, __LINE__, pc);
+   }
+
    for (size_t idx_temp = 1; idx_temp < frm.size(); idx_temp++)
    {
       LOG_FMT(LWARN, "%s(%d): size is %zu\n",
